@@ -59,6 +59,11 @@ Step(ln) ==
               /\ Chk("cancelled call did not return promptly", FakeClock => ln.t = aux.creq[ln.tok])
               /\ Chk("cancel of a finished call", CanCancel(R, ln.tok))
               /\ R' = DoCancel(R, ln.tok) /\ UNCHANGED aux
+    [] ln.ev = "stuck" ->
+         /\ Chk("calls never returned (connection wedged or deadlock)", FALSE)
+         /\ UNCHANGED <<R, aux>>
+    [] ln.ev = "reset" ->      \* a fresh connection
+         /\ R' = InitRpc /\ aux' = [handled |-> {}, creq |-> <<>>]
     [] ln.ev = "end" ->
          /\ Chk("a call never returned", \A cid \in DOMAIN R.call : R.call[cid].st = "done")
          /\ Chk("a request was never handled", \A h \in R.hand : h.tok \in aux.handled)
